@@ -114,7 +114,7 @@ pub fn strategy() -> impl Strategy<Value = Lit> {
                 // a documented unit followed by more words: the literal as a whole is not '<number><unit>'
                 4 => {
                     let u = if interval { randcase(*pick(&TIME_UNITS[..], ui), mask) } else { randcase(pick(&SIZE_UNITS[..], ui).0, mask) };
-                    format!("{}{}", u, [" x", " 3", " 12 hours", "\tago", " kb", " 1"][(mask as usize >> 8) % 6])
+                    format!("{}{}", u, [" x", " 3", " 12 hours", "\tago", " kb", " 1", "\0", "\0\0\0", "\u{200b}", "\u{7f}", "\u{1}", ".", ";", "\u{feff}"][(mask as usize >> 8) % 14])
                 }
                 // long junk: ASCII padding of 24..40 bytes followed by multi-byte characters (straddling byte 32, 64)
                 _ => format!("{}{}", "x".repeat(24 + (ui as usize % 17)), ["é", "漢", "😀", "é漢😀é漢😀é漢😀é漢😀"][(mask % 4) as usize]),
